@@ -163,6 +163,14 @@ def no_black():
         sys.modules.update(saved)
 
 
+class DC:
+    def __init__(self, v):
+        self.v = v
+
+    def __repr__(self):
+        return f"Point(x={self.v!r}, y=[{self.v!r}])"
+
+
 def _lit(v):
     """harness-side spelling of a str/bytes (independent of the code under test)"""
     return ascii(v) if isinstance(v, str) else f"bytes({list(v)!r})"
@@ -204,7 +212,7 @@ def build_module(case):
         obs, op, expected = f"{{'k': {lit}}}", "==", {"k": v}
         prev = {"fix": f"{{'k': {_lit(other)}}}", "update": f"{{'k': {_alt_spelling(v)}}}"}
     elif pos == "dc":
-        obs, op, expected = f"Point(x={lit}, y=[{lit}])", "==", ("dc", v)
+        obs, op, expected = f"Point(x={lit}, y=[{lit}])", "==", DC(v)
         prev = {"fix": f"Point(x={_lit(other)}, y=[])", "update": f"Point(x={_alt_spelling(v)}, y=[{lit}])"}
     elif pos == "nested":
         obs, op, expected = f"[{{'a': ({lit}, [{lit}])}}]", "==", [{"a": (v, [v])}]
@@ -298,7 +306,7 @@ def check_e2e(case):
     if len(r) != 1 or r[0][0] != "value":
         raise Violation("e2e-site", f"site result {r}\n--- before\n{src}\n--- after\n{text}")
     got = r[0][1]
-    if isinstance(expected, tuple) and expected and expected[0] == "dc":
+    if isinstance(expected, DC):
         ok = (type(got).__name__ == "Point" and type(got.x) is type(v) and got.x == v
               and isinstance(got.y, list) and len(got.y) == 1 and type(got.y[0]) is type(v) and got.y[0] == v)
     else:
